@@ -214,7 +214,9 @@ def T_het(kind):
                "cosh": L.approx.HeteroscedasticCoshM1Conditional,
                "step": L.approx.HeteroscedasticHeavisideConditional,
                "relu": L.approx.HeteroscedasticReLUConditional}[kind]
-        W = gen.vec(rng, Dk, Dx + 1, scale=0.6)
+        # (not gen.vec: an exactly zero input weight is outside what the step / rectified-linear
+        # links support - they divide by it)
+        W = rng.standard_normal((Dk, Dx + 1)) * 0.6
         W[:, 0] = 0.4
         inp = {"M": gen.lin_map(rng, 1, Dy, Dx), "b": gen.vec(rng, 1, Dy),
                "A": gen.lin_map(rng, 1, Dy, Da, 0.6, 1.5), "W": W,
@@ -549,6 +551,33 @@ def run_scan(cell, rec, seed):
         rec.close("scan: final density as function", pT.evaluate_ln(x), p.evaluate_ln(x),
                   ns=1.0 + np.max(np.abs(np.asarray(p.evaluate_ln(x)))), detail=info,
                   mech="scan-value")
+
+    # the same filter with the measurement update in factor form: the carry starts as a density
+    # built by its constructor and comes back from get_density() of a product (the two ways of
+    # making a density must have the same tree structure)
+    def step2(p, y):
+        pred = tr.affine_marginal_transformation(p)
+        post = pred.multiply(ob.set_y(y)).get_density()
+        return post, (post.mu, post.Sigma)
+
+    info2 = dict(info, update="prior x set_y factor, get_density")
+    p = p0
+    mus, Ss = [], []
+    try:
+        for t_ in range(T):
+            p, (m, S) = step2(p, ys[t_])
+            mus.append(np.asarray(m))
+            Ss.append(np.asarray(S))
+    except Exception as e:
+        rec.count("scan_factor_form_eager_raises")
+        return
+    r = _call(rec, "lax.scan", lambda: jax.lax.scan(step2, p0, ys), info2, "scan-raises")
+    if r is not None:
+        pT, (m_s, S_s) = r
+        rec.close("scan (factor form): filtered means", m_s, np.stack(mus),
+                  ns=1.0 + np.max(np.abs(np.stack(mus))), detail=info2, mech="scan-value")
+        rec.close("scan (factor form): filtered covariances", S_s, np.stack(Ss),
+                  ns=1.0 + np.max(np.abs(np.stack(Ss))), detail=info2, mech="scan-value")
 
 
 def run_composition(cell, rec, seed):
